@@ -901,6 +901,20 @@ def rule_r11(chk, prog):
               '(shared with C06.R1, publication part)', sub)
 
 
+def rule_r12(chk, prog):
+    """Nobody but the adoption sites writes the output file: a late write
+    of an older list (a finally block of the driver, say) makes the file at
+    exit something else than the last element of the chain (shared with the
+    write part of C01.R2)."""
+    from . import c01
+    sub = Check('C01', 'other', 'quick', [], [])
+    chk.guard(c01.rule_r2, sub, prog)
+    Check.restrict(sub, lambda wh, what: 'write_smtlib_to_file' in str(what))
+    chk.adopt('C05.R12', 'the output file is written at the adoption sites '
+              'only, with the adopted list (shared with the write part of '
+              'C01.R2)', sub)
+
+
 def rule_r7(chk, prog):
     chk.rule('C05.R7', 'ddmin: what a granularity round returns (the input '
              'after all adoptions of the round) is what the next round, the '
@@ -1193,6 +1207,7 @@ def run(tier):
     chk.guard(rule_r8, chk, prog)
     chk.guard(rule_r9, chk, prog)
     chk.guard(rule_r11, chk, prog)
+    chk.guard(rule_r12, chk, prog)
     extra = None
     if tier == 'thorough':
         from .. import selftest
